@@ -27,6 +27,7 @@ func init() {
 	register(&CheckDef{ID: "C01", Gen: genC01, Oracle: oracleC01, SweepBase: sweepBaseC01, SweepKinds: sweepKindsC01})
 	register(&CheckDef{ID: "C02", Gen: genC02, Oracle: oracleC02})
 	register(&CheckDef{ID: "C03", Gen: genC03, Oracle: oracleC03, SweepBase: sweepBaseC03, SweepKinds: sweepKindsC03})
+	register(&CheckDef{ID: "C05", Gen: genC05, Exec: ExecuteC05})
 	register(&CheckDef{ID: "C06", Gen: genC06, Oracle: oracleC06})
 	register(&CheckDef{ID: "C07", Gen: genC07, Oracle: oracleC07})
 	register(&CheckDef{ID: "C08", Gen: genC08, Oracle: oracleC08})
@@ -34,6 +35,24 @@ func init() {
 	register(&CheckDef{ID: "C10", Gen: genC10, Exec: ExecuteC10})
 	register(&CheckDef{ID: "C13", Gen: genC13, Oracle: oracleC13})
 	register(&CheckDef{ID: "C14", Gen: genC14, Oracle: oracleC14})
-	register(&CheckDef{ID: "C20", Gen: genC20, Oracle: oracleC20})
+	register(&CheckDef{ID: "C17", Gen: genC17, Exec: ExecuteNet})
+	register(&CheckDef{ID: "C19", Gen: genC19, Exec: ExecuteC19})
+	register(&CheckDef{ID: "C20", Gen: genC20all, Exec: execC20})
 	register(&CheckDef{ID: "C12", Gen: genC12, Oracle: oracleC12, SweepBase: sweepBaseC12, SweepKinds: sweepKindsC12})
+}
+
+// C20 has two slices: damaged stored records (clustersim) and damaged downloads (netsim).
+func genC20all(seed, index uint64, tier string) *Plan {
+	if index%4 == 3 {
+		return genC20b(NewGen(seed, index, 120), seed, index)
+	}
+	return genC20(seed, index, tier)
+}
+
+func execC20(t *testing.T, p *Plan) *RunResult {
+	if p.Net != nil {
+		return ExecuteC20b(t, p)
+	}
+	r, _ := Execute(t, p, oracleC20, nil, false)
+	return r
 }
